@@ -206,10 +206,11 @@ CHECKS = {
         text=("Determinism lemmas for the order-insensitive consumers of hash-ordered collections (sort_perm_invariant, "
               "numbering_perm_invariant, foldMax/length/membership under permutation) are proved; validation runs every block and "
               "synthesized documents under PYTHONHASHSEED 0,1,2,3,random in separate processes and compares specifications "
-              "(identifiers included), greedy ids, emitted blocks, logs and files byte for byte. Partial: the list of iteration "
-              "sites is not extracted from the source."),
+              "(identifiers included), greedy ids, emitted blocks, logs and files byte for byte. The places where the code visits a set in "
+              "its own order are extracted from the source on every run (translator, syntactic and function-local) and "
+              "Iteration.generated_iteration_sites_ok decides that each feeds an order-insensitive consumer or is allow-listed with a reason."),
         design_ref="DESIGN.md section 8, C13",
-        technique="Lean permutation-invariance lemmas + cross-process, cross-hash-seed byte comparison of real outputs",
+        technique="Lean permutation-invariance lemmas + kernel-decided obligation over set-iteration sites extracted from the source on every run + cross-process, cross-hash-seed byte comparison of real outputs",
     ),
     "C06": dict(
         category="proof",
